@@ -87,3 +87,12 @@ NATIVE['n_trace_corpus'] = dict(
     functions=[('crates/cairo-lang-runner/src/lib.rs', 'impl SierraCasmRunner', 'run_function_with_starknet_context'),
                ('crates/cairo-lang-sierra-to-casm/src/compiler.rs', None, 'compile')],
 )
+NATIVE['n_trace_starknet'] = dict(
+    crate='tests',
+    test_target='examples_test',
+    host='tests/examples_test.rs',
+    harness='native/tests/n_trace_starknet.rs',
+    props={'C04'},
+    bound='4 callers of a compiled Starknet contract (library calls that succeed / panic after work / are nested) x 3 (5) loop lengths x 3 outcomes x 2 (3) gas budgets, run on the VM',
+    functions=[('crates/cairo-lang-runner/src/casm_run/mod.rs', "impl CairoHintProcessor<'_>", 'call_entry_point')],
+)
